@@ -448,6 +448,19 @@ package graphql
 
 // ---- memo tables of the overlapping-fields rule (C02 soundness of memo hits, C19 memo effectiveness) ----
 
+// Float leaves (C04: a legal serialisation or null; C09: the response stays serialisable to JSON): what
+// coerceFloat yields is null, or a float that is not infinite (NaN is turned into null by the leaf guard
+// completeLeafValue / isNullish), whatever Go value came in.
+//@ func coerceFloat
+//@   props C04 C09
+//@   nosafety
+//@   assigns nothing
+//@   ensures result == nil || typeis(result, "float64") || typeis(result, "float32")
+//@   ensures typeis(result, "float64") ==> f64(result) != f64(result) || (f64(result) <= 1.7976931348623157e308 && f64(result) >= -1.7976931348623157e308)
+//@   ensures typeis(result, "float32") ==> f32(result) != f32(result) || (f32(result) <= f32(340282346638528859811704183484516925440) && f32(result) >= f32(-340282346638528859811704183484516925440))
+//@   ensures typeis(value, "float64") && f64(value) <= 1.7976931348623157e308 && f64(value) >= -1.7976931348623157e308 ==> typeis(result, "float64") && f64(result) == f64(value)
+//@   ensures typeis(value, "int") ==> typeis(result, "float64")
+
 //@ func fieldsAndFragmentSet.Has
 //@   props C02 C19 C09:safety
 //@   requires s != nil
